@@ -8,6 +8,8 @@ CONSTANTS
   MixNames = {"create", "log", "balanced"}
   OpndNames = {"mixed", "reuse"}
   Caps = {1, 2, 3, 4, 5, 8, 9}
+  Shapes = {"plain", "empty", "trail1", "trail2", "inner1", "inner2", "inner1trail1", "cr", "crlf", "long4k", "long64k", "long64kinner"}
+  ObjIdClasses = {"zero", "minus1", "negative", "minint32", "maxint32", "minint64", "maxint64", "small", "librange", "random"}
   Closers = {TRUE, FALSE}
 INVARIANT Emit
 CHECK_DEADLOCK FALSE
